@@ -19,8 +19,10 @@ def nontrivial(case):
     inp = case.get("input", {})
     if case["op"] in ("build", "solve"):
         return any((_bits(x) or 0) > 1e2 for x in inp.get("b", []))
-    if case["op"] == "history":
+    if case["op"] in ("history", "ghistory"):
         return any(o.get("op") in ("set", "default") for o in inp.get("ops", []))
+    if case["op"] == "collapse":
+        return len(inp.get("cones", [])) >= 2
     return True
 
 
@@ -59,7 +61,9 @@ def _spec_hash():
     """The pins file pins `C09_x : Spec.stmt_x`; the stmt_x definitions live in Presolve/Spec.v
     (statements only), so that file's comment-stripped, whitespace-normalised text is pinned too."""
     import hashlib, os
-    src = core.strip_comments(open(os.path.join(core.COQ, "theories", "Presolve", "Spec.v")).read())
+    src = ""
+    for f in ("Spec.v", "SemSpec.v"):
+        src += core.strip_comments(open(os.path.join(core.COQ, "theories", "Presolve", f)).read())
     return hashlib.sha256(" ".join(src.split()).encode()).hexdigest()
 
 
